@@ -313,6 +313,7 @@ PROFILES = {
     "rules": {"expr": 8, "stack": 2, "store": 0.5, "load": 0.5, "split": 0.1, "bait": 2.2},
     "memory": {"expr": 2, "stack": 2, "store": 5, "load": 4, "split": 0.2, "bait": 0.5},
     "split": {"expr": 3, "stack": 2, "store": 2, "load": 1, "split": 2.5, "bait": 0.5},
+    "nasty": {"expr": 9, "stack": 2, "store": 0.6, "load": 0.6, "split": 0.3, "bait": 3.0},
     "stack": {"expr": 1, "stack": 8, "store": 0.3, "load": 0.3, "split": 0.1, "bait": 0.3},
 }
 
